@@ -592,8 +592,64 @@ def event_layout(rep):
     except (Untranslatable, AttributeError, ValueError) as ex:
         L += ['def evReads : List Nat := untranslatable_source "Event accessors"', '']
         rep['untranslatable'].append('Event accessors: %s' % ex)
+    L += filter_header(rep)
     L += ['end Pocket.Src', '']
     return '\n'.join(L)
+
+
+def filter_header(rep):
+    """the fixed 32-byte header `Filter::from_parts` writes (up to `let mut p = 32;`), incl. what an absent limit / since / until is
+    written as"""
+    src = open(os.path.join(REPO, 'pocket-types/src/filter.rs')).read()
+    L = []
+    try:
+        _, body = fn_text(src, 'from_parts')
+        i = body.index('output[0..4]')
+        j = body.index('let mut p = ')
+        stm = re.sub(r'\s+', ' ', body[i:j]).strip()
+        end_m = re.match(r'let mut p = (\d+);', re.sub(r'\s+', ' ', body[j:j + 40]))
+        vals = {'(length as u32).to_ne_bytes().as_slice()': ('le32 size', 4), '(ids.len() as u16).to_ne_bytes().as_slice()': ('le16 nIds', 2),
+                '(authors.len() as u16).to_ne_bytes().as_slice()': ('le16 nAuthors', 2), '(kinds.len() as u16).to_ne_bytes().as_slice()': ('le16 nKinds', 2)}
+        opts = {'limit': ('l.to_ne_bytes().as_slice()', 'le32', 4, {'u32::MAX.to_ne_bytes().as_slice()': 4294967295}),
+                'since': ('s.as_u64().to_ne_bytes().as_slice()', 'le64', 8, {'0_u64.to_ne_bytes().as_slice()': 0, 'u64::MAX.to_ne_bytes().as_slice()': 18446744073709551615}),
+                'until': ('u.as_u64().to_ne_bytes().as_slice()', 'le64', 8, {'0_u64.to_ne_bytes().as_slice()': 0, 'u64::MAX.to_ne_bytes().as_slice()': 18446744073709551615})}
+        pos, pieces, rest = 0, [], stm
+        while rest:
+            m = re.match(r'output\[(\d+)\.\.(\d+)\]\.copy_from_slice\((.+?)\); ?', rest)
+            if m and m.group(3) in vals:
+                lean, w = vals[m.group(3)]
+                if int(m.group(1)) != pos or int(m.group(2)) != pos + w:
+                    raise Untranslatable('filter header: write %s..%s at position %d' % (m.group(1), m.group(2), pos))
+                pieces.append(lean); pos += w; rest = rest[m.end():]
+                continue
+            m = re.match(r'output\[(\d+)\] = 0; ?', rest)
+            if m:
+                if int(m.group(1)) != pos:
+                    raise Untranslatable('filter header: zero byte at %s, position %d' % (m.group(1), pos))
+                pieces.append('[0]'); pos += 1; rest = rest[m.end():]
+                continue
+            m = re.match(r'match (\w+) \{ Some\((\w)\) => output\[(\d+)\.\.(\d+)\]\.copy_from_slice\((.+?)\), None => output\[(\d+)\.\.(\d+)\]\.copy_from_slice\((.+?)\), \} ?', rest)
+            if m and m.group(1) in opts:
+                some_expr, enc, w, defaults = opts[m.group(1)]
+                if m.group(5) != some_expr or m.group(8) not in defaults or (m.group(3), m.group(4)) != (m.group(6), m.group(7)) \
+                        or int(m.group(3)) != pos or int(m.group(4)) != pos + w:
+                    raise Untranslatable('filter header: the write of %s' % m.group(1))
+                pieces.append('%s (%s.getD %d)' % (enc, m.group(1) if m.group(1) != 'until' else '«until»', defaults[m.group(8)]))
+                pos += w; rest = rest[m.end():]
+                continue
+            raise Untranslatable('filter header: statement %r' % rest[:60])
+        if not end_m or int(end_m.group(1)) != pos:
+            raise Untranslatable('filter header: ends at %d, the arrays start at %s' % (pos, end_m.group(1) if end_m else '?'))
+        L += ['/-- the fixed header `Filter::from_parts` writes before the id / author / kind arrays (%d bytes), absent options written as their' % pos,
+              'defaults -/',
+              'def filterHeader (size nIds nAuthors nKinds : Nat) (limit since «until» : Option Nat) : Bytes :=',
+              '  ' + ' ++ '.join(pieces), '']
+        rep['translated'].append('filter.rs:from_parts header (%d bytes)' % pos)
+    except (Untranslatable, ValueError) as ex:
+        L += ['/-- the header of `Filter::from_parts` could not be translated: %s -/' % str(ex).replace('-/', '- /'),
+              'def filterHeader : Bytes := untranslatable_source "Filter::from_parts header"', '']
+        rep['untranslatable'].append('filter header: %s' % ex)
+    return L
 
 
 HEAD = ['/- GENERATED by lib/srcfacts.py from the current working tree of /repo on every check run.  Do not edit: edit the translator.',
